@@ -11,6 +11,7 @@ def run(chk, ctx):
     P = Prog(ctx["facts"])
     from . import eqrules
     eqrules.require(chk, P, ["Signal"], "`output.signal == signal` identifies the signal (name, width and direction all equal)")
+    eqrules.require_clone(chk, P, ["value::OutputValue"], "EvalContext::get hands out the stored output value")
     chk.explanation = ("C04 decided structurally: TAB (variables shadow outputs in EvalContext::get; Expr::Variable yields Ok only for Value), WHO (who writes / refreshes the outputs map: the constructor literal and set_outputs, "
                        "called only from new_with_outputs and handle_io's read branch; set_outputs replaces the map by exactly its argument), ORD (in handle_io the write branch refreshes nothing; in next() the row is evaluated by get_row strictly before its own IO and nothing is evaluated afterwards outside handle_io; "
                        "in try_new build_output_indices lies on every Ok path with its error propagated and rejects iff a read output is missing from the first answer).")
